@@ -72,4 +72,82 @@ theorem flattenAtoms_core (ri : Nat) (rs : List Residue) :
 theorem ofNested_atoms_core (t : Topology) : (ofNested t).atoms.map IAtom.core = t.atoms.map Atom.core := by
   simp only [ofNested, flattenAtoms_core, Topology.atoms, Topology.residues, List.flatMap_assoc]
 
+theorem filterMap_congr_mem {α β : Type} (f g : α → Option β) (l : List α) (h : ∀ a ∈ l, f a = g a) :
+    l.filterMap f = l.filterMap g := by
+  induction l with
+  | nil => rfl
+  | cons a as ih => simp only [List.filterMap_cons, h a (by simp), ih (fun x hx => h x (by simp [hx]))]
+
+/-- the filter by position is the gathering of the kept positions in increasing order -/
+theorem filterIdx_eq_gather_from {α : Type} (keep : Nat → Bool) (l : List α) (b : Nat) :
+    filterIdx keep b l = ((List.range' b l.length).filter keep).filterMap (fun i => l[i - b]?) := by
+  induction l generalizing b with
+  | nil => simp [filterIdx]
+  | cons a as ih =>
+    have hcongr : ((List.range' (b + 1) as.length).filter keep).filterMap (fun i => (a :: as)[i - b]?) =
+        ((List.range' (b + 1) as.length).filter keep).filterMap (fun i => as[i - (b + 1)]?) := by
+      apply filterMap_congr_mem
+      intro i hi
+      have hi' := (List.mem_filter.mp hi).1
+      have : b + 1 ≤ i := (List.mem_range'_1.mp hi').1
+      have e : i - b = (i - (b + 1)) + 1 := by omega
+      rw [e, List.getElem?_cons_succ]
+    simp only [filterIdx, List.length_cons, List.range'_succ, List.filter_cons]
+    by_cases hb : keep b = true
+    · simp only [hb, if_true, List.filterMap_cons, Nat.sub_self, List.getElem?_cons_zero]
+      rw [ih (b + 1), hcongr]
+    · simp only [hb, if_false, Bool.false_eq_true]
+      rw [ih (b + 1), hcongr]
+
+theorem filterIdx_eq_gather {α : Type} (keep : Nat → Bool) (l : List α) :
+    filterIdx keep 0 l = gatherIdx l ((List.range l.length).filter keep) := by
+  rw [filterIdx_eq_gather_from keep l 0, List.range_eq_range']
+  rfl
+
+
+theorem mem_filter_range_lt (keep : Nat → Bool) (n x : Nat) (h : x ∈ (List.range n).filter keep) : x < n :=
+  List.mem_range.mp (List.mem_filter.mp h).1
+
+theorem findIdx?_none_of_all_ne (l : List Nat) (i : Nat) (h : ∀ x ∈ l, x ≠ i) : l.findIdx? (· == i) = none := by
+  rw [List.findIdx?_eq_none_iff]
+  intro x hx
+  simpa using h x hx
+
+/-- where a kept position is found in the increasing list of kept positions: at its rank -/
+theorem findIdx?_filter_range (keep : Nat → Bool) (n i : Nat) :
+    ((List.range n).filter keep).findIdx? (· == i) = if i < n ∧ keep i = true then some (rank keep i) else none := by
+  induction n with
+  | zero => simp
+  | succ n ih =>
+    rw [List.range_succ, List.filter_append, List.findIdx?_append, ih]
+    by_cases hin : i < n
+    · by_cases hk : keep i = true
+      · simp [hin, hk, Nat.lt_succ_of_lt hin]
+      · have hnot : ¬ (i < n + 1 ∧ keep i = true) := fun h => hk h.2
+        have hne : i ≠ n := Nat.ne_of_lt hin
+        simp only [hin, hk]
+        by_cases hkn : keep n = true
+        · simp [List.filter, hkn, hne.symm]
+        · simp [List.filter, hkn]
+    · simp only [hin, false_and, if_false, Option.none_or]
+      by_cases hkn : keep n = true
+      · by_cases hien : i = n
+        · subst hien
+          simp [List.filter, hkn, rank]
+        · have : ¬ (i < n + 1) := by omega
+          simp [List.filter, hkn, this, Ne.symm hien]
+      · by_cases hien : i = n
+        · subst hien; simp [List.filter, hkn]
+        · have : ¬ (i < n + 1) := by omega
+          simp [List.filter, hkn, this]
+
+theorem filterMap_ite_eq {α β : Type} (p : α → Bool) (g : α → β) (l : List α) :
+    l.filterMap (fun b => if p b = true then some (g b) else none) = (l.filter p).map g := by
+  induction l with
+  | nil => rfl
+  | cons a as ih =>
+    by_cases h : p a = true
+    · simp [h, ih]
+    · simp [h, ih]
+
 end MdVerif.Topo
